@@ -15,9 +15,10 @@ static const char *buftexts[] = {
 	"a.b..c  d\n;;\nab12_x\n",
 	"l0\n  l1\nl2\n\nl4\n\tl5\nl6\nl7\n  l8\nl9\nl10\nl11 end\n",
 	"ab \n \nc.\n\t \n\nd\n  \n",		/* lines holding only blanks are not empty lines */
+	"if (c == '[') x\na { b ) c }\na ( b ] c\n(a [b) c]\n",	/* brackets of another kind between a pair do not count */
 };
-#define NBUF 9
-static const int buf_rows[] = {24, 24, 24, 24, 24, 24, 24, 6, 24};
+#define NBUF 10
+static const int buf_rows[] = {24, 24, 24, 24, 24, 24, 24, 6, 24, 24};
 
 struct mop { char bytes[12]; int key; unsigned arg; int cnt; };
 static struct mop ops[400];
